@@ -243,6 +243,67 @@ func ruleSnapshot(c *Ctx, r *Report) {
 					stale = name
 				}
 			}
+			// (after seed C09f) ... nor by a position found in a list taken at call time: a loop index applied to the
+			// live list is bounded by the length of the live list, not by the length of a captured slice
+			if stale == "" {
+				isLive := func(v ssa.Value) bool { _, ok := loadsField(v, "userDefined", "clauses"); return ok }
+				lenOf := func(v ssa.Value) (ssa.Value, bool) {
+					call, ok := v.(*ssa.Call)
+					if !ok {
+						return nil, false
+					}
+					if b, ok := call.Call.Value.(*ssa.Builtin); !ok || b.Name() != "len" || len(call.Call.Args) != 1 {
+						return nil, false
+					}
+					return call.Call.Args[0], true
+				}
+				for _, i := range idx {
+					if _, isConst := i.(*ssa.Const); isConst {
+						continue
+					}
+					fromLive := false
+					dataSlice(i, func(x ssa.Value) bool {
+						if l, ok := lenOf(x); ok && isLive(l) {
+							fromLive = true
+						}
+						return !fromLive
+					})
+					if fromLive {
+						continue
+					}
+					// strip i+1 / i-1
+					base := i
+					if bo, ok := base.(*ssa.BinOp); ok && (bo.Op == token.ADD || bo.Op == token.SUB) {
+						if _, isK := constInt(bo.Y); isK {
+							base = bo.X
+						}
+					}
+					live, other := false, ""
+					for f := range c.factsAt(in.Block()) {
+						bo, ok := f.cond.(*ssa.BinOp)
+						if !ok || !f.pol || (bo.Op != token.LSS && bo.Op != token.GTR) {
+							continue
+						}
+						a, b := bo.X, bo.Y
+						if bo.Op == token.GTR {
+							a, b = b, a
+						}
+						if a != base {
+							continue
+						}
+						if l, ok := lenOf(b); ok {
+							if isLive(l) {
+								live = true
+							} else {
+								other = valName(l)
+							}
+						}
+					}
+					if !live && other != "" {
+						stale = "the position in `" + other + "`"
+					}
+				}
+			}
 			if stale != "" {
 				r.bad(rule, fmt.Sprintf("%s/index(u.clauses)", fname(fn)), c.at(in), desc,
 					"index depends on captured variable `"+stale+"`: after another update of the predicate the position is stale (wrong clause removed, or slice bounds out of range)")
